@@ -14,7 +14,10 @@ def felt_cmps(F, fn):
     I = Interp(F)
     out = []
     for c in cmp_branches(fn):
-        if c["kind"] != "call" or not c.get("callee", "").endswith("BaseElement@PartialEq::eq"):
+        if c["kind"] != "call" or not re.search(r"PartialEq::(eq|ne)$", c.get("callee", "")):
+            continue
+        ct = fn.blocks[[bi for bi, cal, t in fn.calls() if t["to"] == c["block"] and re.search(r"PartialEq::(eq|ne)$", cal)][0]]["t"] if True else None
+        if not (c["callee"].startswith("winter_math::field::f64::BaseElement@") or any(g.endswith("Felt") or g.endswith("BaseElement") for g in ct["f"].get("ga", []))):
             continue
         vals = []
         for side in ("a", "b"):
@@ -52,7 +55,7 @@ def r1_three_way(ctx, F):
         fn = F.fn(r"^miden_processor::Process::%s$" % fname)
         cs = felt_cmps(F, fn)
         ones = [c for c in cs if c["const"] == 1 and c["op"] == "=="]
-        zeros = [c for c in cs if c["const"] == 0 and c["op"] == "=="]
+        zeros = [c for c in cs if c["const"] == 0 and c["op"] in ("==", "!=")]
         ctx.analysed("%s: comparisons with ONE at lines %s, with ZERO at lines %s" % (fname, [c["ln"] for c in ones], [c["ln"] for c in zeros]))
         conseq = set(bi for bi, cal, t in fn.calls() if re.search(CONSEQ, cal))
         rets = set(return_blocks(fn))
@@ -89,7 +92,7 @@ def r1_three_way(ctx, F):
                               "without comparing the value with ZERO and failing with NotBinaryValue otherwise" % (fname, c1["ln"], t.get("f", {}).get("fn", "return"), t["ln"]))
                 continue
             for z in okz:
-                reach = fn.reachable_blocks(z["false"])
+                reach = fn.reachable_blocks(z["false"] if z["op"] == "==" else z["true"])
                 builds = any(s["r"].get("variant") == "NotBinaryValue" for bi in reach for s in fn.blocks[bi]["s"] if s["r"]["k"] == "agg")
                 bad2 = [bi for bi in reach if bi in conseq]
                 ctx.oblig(builds and not bad2)
